@@ -299,6 +299,7 @@ func NewSet(hosts ...*Host) *Set {
 		healthyBackup: make(map[string]*Host),
 	}
 	s.add(hosts...)
+	s.buildHealthyCache()
 	return s
 }
 
@@ -319,7 +320,6 @@ func (set *Set) addToHealthy(host ...*Host) {
 			continue
 		}
 	}
-	set.buildHealthyCache()
 }
 
 func (set *Set) removeFromHealthy(host ...*Host) {
@@ -339,9 +339,12 @@ func (set *Set) removeFromHealthy(host ...*Host) {
 			continue
 		}
 	}
-	set.buildHealthyCache()
 }
 
+// buildHealthyCache publishes the healthy hosts to the lock-free readers. It
+// must be called once at the end of every operation which changes them, the
+// intermediate states of an operation (e.g. ReplaceAll removes all the hosts
+// first) must not be visible.
 func (set *Set) buildHealthyCache() {
 	hostMap := set.healthy()
 
@@ -364,6 +367,7 @@ func (set *Set) Add(hosts ...*Host) {
 	set.Lock()
 	defer set.Unlock()
 	set.add(hosts...)
+	set.buildHealthyCache()
 }
 
 func (set *Set) add(hosts ...*Host) {
@@ -394,6 +398,7 @@ func (set *Set) Remove(hosts ...*Host) {
 	set.Lock()
 	defer set.Unlock()
 	set.remove(hosts...)
+	set.buildHealthyCache()
 }
 
 func (set *Set) remove(hosts ...*Host) {
@@ -427,6 +432,7 @@ func (set *Set) MarkHostHealthy(host *Host) bool {
 		return false
 	}
 	set.addToHealthy(host)
+	set.buildHealthyCache()
 	return true
 }
 
@@ -444,6 +450,7 @@ func (set *Set) MarkHostUnhealthy(host *Host) bool {
 		return false
 	}
 	set.removeFromHealthy(host)
+	set.buildHealthyCache()
 	return true
 }
 
@@ -516,4 +523,5 @@ func (set *Set) ReplaceAll(hosts []*Host) {
 		set.remove(host)
 	}
 	set.add(hosts...)
+	set.buildHealthyCache()
 }
